@@ -10,7 +10,8 @@ RULE = ("accepted vectors: rh_vector() vs printed base score + '/' + clean vecto
         "strings <score text>/<vector text>: every one-decimal score 0.0..10.0 and a stream of score spellings "
         "(padding, sign, exponent, underscores, long decimals, nan/inf, empty, no slash, non-ASCII digits) paired with "
         "valid and invalid vectors; outcome class vs 'number parses AND vector valid AND number == base score'; "
-        "model-vs-code for ASCII score texts; distinct = distinct (version, string)")
+        "model-vs-code for ASCII score texts; distinct = distinct (version, string)"
+        " + score texts a hair away from the score, with 40 digits, with 20-digit exponents")
 ASSUMPTIONS = ["'parses as a number' is Python's float() grammar; the Lean model covers ASCII spellings"]
 
 SPELL = ["{x}", " {x}", "{x} ", "\t{x}\n", "+{x}", "-{x}", "{x}0", "0{x}", "{x}00000000000000001", "{x}e0", "{x}E+0", "{x}e-0",
